@@ -464,26 +464,29 @@ def _exec_chunk(chunk):
     return out
 
 
-def run_jobs(jobs, root, seconds, tmpfs, chunk=40):
-    """Execute jobs in a process pool; stops taking new chunks when the time
+def make_pool(root, tmpfs):
+    """The pool is forked while this process is still small and has no threads:
+    every KillWriter forks once more from a pool worker, which is cheap only as
+    long as the worker's heap is small."""
+    nproc = common.NCPU if tmpfs else 3 * common.NCPU     # the disk is fsync-bound
+    return mp.get_context('fork').Pool(nproc, _init_worker, (root,))
+
+
+def run_jobs(pool, jobs, seconds, chunk=40):
+    """Execute jobs in the process pool; stops taking new chunks when the time
     budget is used up (jobs are in seeded random order, so the executed prefix
     is a uniform sample).  Returns the list of results (prefix of jobs)."""
     if not jobs:
         return []
-    chunks = [jobs[i:i + chunk] for i in range(0, len(jobs), chunk)]
-    nproc = common.NCPU if tmpfs else 3 * common.NCPU     # the disk is fsync-bound
+    strip = lambda j: {k: v for k, v in j.items() if k != 'mv'}       # noqa: E731
+    chunks = ([strip(j) for j in jobs[i:i + chunk]] for i in range(0, len(jobs), chunk))
     t0 = time.time()
     out = []
-    pool = mp.get_context('fork').Pool(min(nproc, len(chunks)), _init_worker, (root,))
-    try:
-        it = pool.imap(_exec_chunk, chunks)
-        for _ in chunks:
-            out += it.next(timeout=900)
-            if time.time() - t0 > seconds:
-                break
-    finally:
-        pool.terminate()
-        pool.join()
+    it = pool.imap(_exec_chunk, chunks)
+    while len(out) < len(jobs):
+        out += it.next(timeout=900)
+        if time.time() - t0 > seconds:
+            break
     return out
 
 
@@ -697,15 +700,21 @@ def run(prop, tier):
     info = {'scratch_on_tmpfs': sc.startswith('/dev/shm')}
     root = tempfile.mkdtemp(prefix='c11-', dir=sc)
     jopts = os.environ.get('JAVA_TOOL_OPTIONS')
+    pool = None
     try:
         # the folds over a long history (writer of 30 stores + reader) recurse deeply in TLC
         os.environ['JAVA_TOOL_OPTIONS'] = ((jopts or '') + ' -Xss64m').strip()
         _patch_disk_usage(root, info)
-        return _run(prop, tier, res, plan, rng, root, info)
+        warnings.simplefilter('ignore')
+        pool = make_pool(root, info['scratch_on_tmpfs'])
+        return _run(prop, tier, res, plan, rng, root, info, pool)
     except tlc.TlcError as e:
         res.machinery_errors.append(str(e))
         return res.finish()
     finally:
+        if pool is not None:
+            pool.terminate()
+            pool.join()
         shutil.disk_usage = _real_disk_usage
         if jopts is None:
             os.environ.pop('JAVA_TOOL_OPTIONS', None)
@@ -720,7 +729,7 @@ def run(prop, tier):
                 pass
 
 
-def _run(prop, tier, res, plan, rng, root, info):
+def _run(prop, tier, res, plan, rng, root, info, pool):
     unfixed = _unfixed()
     repaired = [u for u in unfixed if u not in (KF_NEG, KF_NPKEY)]
     t0 = time.time()
@@ -786,7 +795,9 @@ def _run(prop, tier, res, plan, rng, root, info):
 
     # ---- spec -> code: replay on real directories --------------------------
     t1 = time.time()
-    outs = run_jobs(jobs, root, plan['replay_seconds'], info['scratch_on_tmpfs'])
+    outs = run_jobs(pool, jobs, plan['replay_seconds'])
+    pool.terminate()           # whatever was not reached within the budget is dropped
+    pool.join()
     info['t_replay'] = round(time.time() - t1, 1)
     executed = jobs[:len(outs)]
     info['lifecycles_enumerated'] = len(chosen)
